@@ -156,6 +156,16 @@ type Sim struct {
 	// DeadTargets are ordinals that died while being a target (since reset).
 	DeadTargets []int
 	Step        int
+	// Flags are facts about the last op, for labels and non-triviality rules.
+	Flags map[string]int
+}
+
+// Flag records a fact about the current op.
+func (s *Sim) Flag(name string, v int) {
+	if s.Flags == nil {
+		s.Flags = map[string]int{}
+	}
+	s.Flags[name] = v
 }
 
 // NewSim creates the worlds for universe u.
@@ -304,6 +314,7 @@ func (s *Sim) Apply(op Op) {
 	}
 	o := &s.Ops[len(s.Ops)-1]
 	s.TargetDied = false
+	s.Flags = nil
 	s.Step++
 	switch o.K {
 	case OpDumpLoad:
@@ -355,10 +366,13 @@ func (s *Sim) afterIllegal(o *Op, b *WB, why *Illegal, p any, shapeBefore string
 		return
 	}
 	if !single {
-		// batch failures are not atomic (DESIGN 4.8): the case ends here
-		s.Aborted = true
-		if s.St != nil {
-			s.St.Count("ended_after_illegal_batch", 1)
+		// batch failures are not atomic (DESIGN 4.8): only the panic is required. The case
+		// goes on if the world still equals the (unchanged) model, and ends quietly otherwise.
+		if err := b.Verify(s.M, FullVerify); err != nil {
+			s.Aborted = true
+			if s.St != nil {
+				s.St.Count("ended_after_illegal_batch", 1)
+			}
 		}
 		return
 	}
@@ -630,6 +644,10 @@ func (s *Sim) drainCreateQuery(o *Op, b *WB, q *ecs.Query, st EntState) ([]ecs.E
 	hs := []ecs.Entity{}
 	seen := map[ecs.Entity]bool{}
 	for q.Next() {
+		if b.Rec != nil && len(b.Rec.Cur) > 0 {
+			q.Close()
+			return nil, finding(CatEvents, "%s: %d events delivered while the NewBatchQ query is still open", b.Name, len(b.Rec.Cur))
+		}
 		h := q.Entity()
 		if _, known := b.Ord[h]; known || seen[h] {
 			q.Close()
@@ -1219,6 +1237,10 @@ func (s *Sim) doBatch(o *Op) {
 		affected = append(affected, ord)
 	}
 	noop := (o.K == OpBatchExch) && len(o.Add) == 0 && len(o.Rem) == 0
+	srcStates := map[EntState]bool{}
+	for _, ord := range affected {
+		srcStates[s.M.Ents[ord].EntState] = true
+	}
 
 	// 2. run it
 	for wi, b := range s.Worlds() {
@@ -1296,6 +1318,12 @@ func (s *Sim) doBatch(o *Op) {
 	if len(sel) >= 2 {
 		s.label("batch: >=2 entities")
 	}
+	s.Flag("batch.selected", len(sel))
+	s.Flag("batch.affected", len(affected))
+	s.Flag("batch.sources", len(srcStates))
+	if len(srcStates) >= 2 {
+		s.label("batch: >=2 source tables")
+	}
 	s.checkEvents(o, chs)
 }
 
@@ -1316,6 +1344,10 @@ func (s *Sim) drainBatchQuery(o *Op, b *WB, q *ecs.Query, affected []int, next m
 	}
 	seen := map[int]bool{}
 	for q.Next() {
+		if b.Rec != nil && len(b.Rec.Cur) > 0 {
+			q.Close()
+			return finding(CatEvents, "%s: %d events delivered while the query of %s is still open", b.Name, len(b.Rec.Cur), o.K)
+		}
 		h := q.Entity()
 		ord, ok := b.Ord[h]
 		if !ok || !want[ord] {
